@@ -51,7 +51,7 @@ ASSUMPTIONS = ["schema changes: only the picked / reverted commit changes the sc
                "column order is not compared (columns sorted by id); rebase plans are generated over commits of one schema",
                "operations name commits that have a parent inside the generated tree (the root commit, whose parent is dolt's schema-less initial commit, is never cherry-picked or reverted)",
                "every generated commit differs from its parent (dolt refuses to create / cherry-pick empty commits by default)"]
-REQUIRED_TAGS = ["cp-resolved", "rv-resolved", "rb-resolved", "cp-aborted", "rv-aborted", "rb-aborted", "resolved-ours", "resolved-theirs",
+REQUIRED_TAGS = ["dirty-rv-ok", "dirty-rv-refused", "dirty-cp-refused", "dirty-untracked-ok", "dirty-t2-ok", "rb-pause-fractional-order", "cp-resolved", "rv-resolved", "rb-resolved", "cp-aborted", "rv-aborted", "rb-aborted", "resolved-ours", "resolved-theirs",
                  "schema-cp-ok", "schema-rv-ok", "schema-cp-conflict", "cp-ok", "cp-conflict", "cp-nochange", "cp-on-parent", "rv-ok", "rv-conflict", "rv-latest", "rb-ok", "rb-conflict", "rb-invalid",
                  "rb-squash", "rb-fixup", "rb-drop", "rb-reword", "rb-reorder", "rb-became-empty", "cellwise-merge"]
 
@@ -208,7 +208,26 @@ def gen_one(rng):
     ops = []
     for _ in range(rng.randint(6, 9)):
         r = rng.random()
-        if r < 0.3:
+        if r < 0.08:
+            # revert / cherry-pick with unrelated uncommitted work around: table 2 edited (unstaged) and / or an untracked table
+            c = rng.randrange(1, n)
+            kind = "rv" if rng.random() < 0.75 else "cp"
+            hd = c if (kind == "rv" and rng.random() < 0.4) else rng.randrange(n)
+            op = {"kind": kind, "head": hd, "c": c, "res": "", "hasdirty": False, "untracked": rng.random() < 0.5, "dirty": []}
+            if rng.random() < 0.75 or not op["untracked"]:
+                cur2 = sorted((k, v) for (t, k), v in contents[hd].items() if t == 2)
+                for _ in range(20):
+                    new2 = {}
+                    for k in rng.sample(KEYS, rng.randint(0, 3)):
+                        new2[k] = [rng.choice(VALS), rng.choice(VALS)]
+                    if sorted(new2.items()) != cur2:
+                        break
+                else:
+                    new2 = {9: [0, 0]}
+                op["hasdirty"] = True
+                op["dirty"] = [{"t": 2, "k": k, "c": v} for k, v in sorted(new2.items())]
+            ops.append(op)
+        elif r < 0.3:
             c = rng.randrange(1, n)
             hd = parents[c] if rng.random() < 0.25 else rng.randrange(n)
             ops.append({"kind": "cp", "head": hd, "c": c, "res": rng.choice(RES)})
@@ -231,6 +250,9 @@ def gen_one(rng):
                 i = rng.randrange(len(steps) - 1); steps[i], steps[i + 1] = steps[i + 1], steps[i]
             if rng.random() < 0.2 and len(steps) > 1:
                 del steps[rng.randrange(len(steps))]
+            if rng.random() < 0.8:
+                for st, o in zip(steps, _orders(rng, len(steps))):
+                    st["o"] = o
             ops.append({"kind": "rb", "head": tip, "c": 0, "onto": onto, "plan": steps, "res": rng.choice(RES)})
     return {"commits": [{"parent": parents[i], "rows": _rows_json(contents[i])} for i in range(n)], "ops": ops}
 
@@ -250,7 +272,20 @@ def _content(rows):
 
 
 ACT = {"pick": "Pick", "reword": "Reword", "squash": "Squash", "fixup": "Fixup", "drop": "Drop"}
-KIND = {"ok": 0, "conflict": 1, "nochange": 2, "invalid": 3, "err": 4, "resolved": 5, "aborted": 6, "schemaconflict": 1}
+FRACS = ["7", "1", "3", "25", "5", "0", "75", "9"]
+
+
+def _orders(rng, n):
+    """ascending rebase_order values with fractional parts like x.7, x.1, x.3, x.25 (most are not exactly representable in binary)"""
+    out, cur = [], 0
+    for _ in range(n):
+        cur += rng.choice([1, 1, 2])
+        f = rng.choice(FRACS)
+        out.append("%d.%s" % (cur, f) if f != "0" else str(cur))
+    return out
+
+
+KIND = {"refused": 7, "ok": 0, "conflict": 1, "nochange": 2, "invalid": 3, "err": 4, "resolved": 5, "aborted": 6, "schemaconflict": 1}
 MODE = {"": "Stop", None: "Stop", "ours": "(Resolve Ours)", "theirs": "(Resolve Theirs)", "abort": "Abort"}
 
 
@@ -266,11 +301,18 @@ def _kind(o):
 
 def _op(o):
     m = MODE[o.get("res", "")]
+    if o.get("hasdirty") or o.get("untracked"):
+        d2 = ("(Some %s)" % _content(o["dirty"])) if o.get("hasdirty") else "None"
+        return "%s %d %d %s %s" % ("OCpD" if o["kind"] == "cp" else "ORvD", o["head"], o["c"], d2, "true" if o.get("untracked") else "false")
     if o["kind"] == "cp":
         return "OCp %d %d %s" % (o["head"], o["c"], m)
     if o["kind"] == "rv":
         return "ORv %d %d %s" % (o["head"], o["c"], m)
     return "ORb %d %d %s %s" % (o["head"], o["onto"], cq_list("(%s, %d)" % (ACT[s["a"]], s["c"]) for s in o["plan"]), m)
+
+
+def _perm(rows, order):
+    return [dict(r, c=[r["c"][i] for i in order]) if r["t"] == 1 else r for r in rows]
 
 
 def _canon_cols(x):
@@ -279,17 +321,18 @@ def _canon_cols(x):
     order = sorted(range(len(cols)), key=lambda i: COLID[cols[i]])
     if order == list(range(len(cols))):
         return x
-    rows = [dict(r, c=[r["c"][i] for i in order]) if r["t"] == 1 else r for r in x["rows"]]
-    return dict(x, cols1=[cols[i] for i in order], rows=rows)
+    return dict(x, cols1=[cols[i] for i in order], rows=_perm(x["rows"], order), work=_perm(x.get("work") or [], order))
 
 
 def _obs1(x):
     x = _canon_cols(x)
     k = _kind(x)
-    final = k in ("ok", "resolved", "aborted")
-    return "{| k_kind := %d; k_schema := %s; k_data := %s; k_new := %d; k_restored := %s; k_pauses := %d |}" % (
+    final = k in ("ok", "resolved", "aborted", "refused")
+    work = [r for r in (x.get("work") or []) if r["t"] in (1, 2)]
+    return "{| k_kind := %d; k_schema := %s; k_data := %s; k_new := %d; k_restored := %s; k_pauses := %d; k_work := %s; k_dirty_kept := %s |}" % (
         KIND[k], _schema(x.get("cols1")) if final else "[]", _content(x["rows"]) if final else "[]",
-        max(0, x["newcnt"]) if final else 0, "true" if x.get("restored") else "false", x.get("pauses", 0) if final else 0)
+        max(0, x["newcnt"]) if final else 0, "true" if x.get("restored") else "false", x.get("pauses", 0) if final else 0,
+        _content(work) if final else "[]", "true" if (final and x.get("dirtykept")) else "false")
 
 
 def coq_case(case, out):
@@ -297,7 +340,7 @@ def coq_case(case, out):
     ops = cq_list(_op(o) for o in case["ops"])
     o = out.get("obs")
     if o is None or out.get("err") or out.get("panic") or len(o.get("ops") or []) != len(case["ops"]):
-        obs = "[]" if case["ops"] else "[{| k_kind := 9; k_schema := []; k_data := []; k_new := 0; k_restored := false; k_pauses := 0 |}]"
+        obs = "[]" if case["ops"] else "[{| k_kind := 9; k_schema := []; k_data := []; k_new := 0; k_restored := false; k_pauses := 0; k_work := []; k_dirty_kept := false |}]"
     else:
         obs = cq_list(_obs1(x) for x in o["ops"])
     return "((%s, %s), %s)" % (cs, ops, obs)
@@ -316,6 +359,14 @@ def classify(case, out):
         tags.append("%s-%s" % (op["kind"], k))
         if k == "resolved":
             tags.append("resolved-" + op.get("res", ""))
+        if op.get("hasdirty") or op.get("untracked"):
+            tags.append("dirty-%s-%s" % (op["kind"], k))
+            if op.get("untracked") and k == "ok":
+                tags.append("dirty-untracked-ok")
+            if op.get("hasdirty") and k == "ok":
+                tags.append("dirty-t2-ok")
+        if op["kind"] == "rb" and r.get("pauses", 0) > 0 and any("." in st.get("o", "") for st in op["plan"]):
+            tags.append("rb-pause-fractional-order")
         if sch:
             tags.append("schema-%s-%s" % (op["kind"], k))
         if op["kind"] == "cp" and par[op["c"]] == op["head"]:
